@@ -73,6 +73,9 @@ def run(chk, args):
                              "size": k % 3 == 2, "cutoff": k % 2 == 1})
             tid += 1
             scen.append({"tid": tid, "kind": "orient", "model": m, "seed": rng.randrange(1 << 30), "njit": 0, "onaxis": True})
+            for directed in ("zero-view", "near-limit"):
+                tid += 1
+                scen.append({"tid": tid, "kind": "orient", "model": m, "seed": rng.randrange(1 << 30), "njit": 0, "directed": directed})
             for law in ("detector-rotation", "inversion", "one-d-ignores-orientation"):
                 for _ in range(4 if thorough else 1):
                     tid += 1
